@@ -108,7 +108,7 @@ class Prov:
         if self._mut is None:
             m = {}
             for c in self.body.calls:
-                if any(r.search(n) for n in c.names() for r in _MU) and len(c.args) >= 2:
+                if not c.local and any(r.search(n) for n in c.names() for r in _MU) and len(c.args) >= 2:
                     p = op_place(c.args[0])
                     if p is None:
                         continue
